@@ -1,7 +1,7 @@
 """Structural accessor tables of the document model (C13, shared with C08): `Document::link_at` finds the link under the cursor by descending through
 `DocumentBlock::child_blocks`, `DocumentBlock::child_inlines` and `DocumentInline::child_inlines`.  Each is a variant table; a variant whose payload has nested content
 (`blocks` / `items` / `inlines`) must hand that content out - if it slides into a `_ => vec![]` arm, the links inside such a block (a heading, a quote, an emphasis) are invisible to
-go-to-definition, prepare-rename and rename.  Audited: tables do not hand out their cells."""
+go-to-definition, prepare-rename and rename.  The cells of a table are nested inlines as well (header / rows): on the pinned tree they are not handed out - a known finding."""
 from vlib import factbase as fb
 from . import arms as A
 from .common import ctx, loc, match_arms_on, arms_by_variant
@@ -13,8 +13,9 @@ TABLES = (
 )
 AUDITED_EMPTY = {
     ("DocumentBlock::child_blocks", "Table"): "cells hold inlines, not blocks",
-    ("DocumentBlock::child_inlines", "Table"): "links in table cells are not found under the cursor on the pinned tree (cells are not handed out); recorded as the status quo, not as correct",
 }
+# nested inline content that is not called `inlines`: the cells of a table (header row and body rows)
+EXTRA_NESTED = {("DocumentBlock::child_inlines", "Table"): ("header", "rows")}
 
 
 def rule_child_tables(facts, rep, rid):
@@ -35,10 +36,16 @@ def rule_child_tables(facts, rep, rid):
                 st = A.struct_of_type(facts, fl["ty"])
                 if st is not None:
                     nested += [x["name"] for x in st["variants"][0]["fields"] if x["name"] in want]
+            key = "%s|arm:%s|hands-out-%s" % (f.def_, vn, "/".join(want))
+            if not nested and (fn_suffix, vn) in EXTRA_NESTED:
+                for fl in var["fields"]:
+                    st = A.struct_of_type(facts, fl["ty"])
+                    if st is not None:
+                        nested += [x["name"] for x in st["variants"][0]["fields"] if x["name"] in EXTRA_NESTED[(fn_suffix, vn)]]
+                key = "%s|arm:%s|hands-out-cells" % (f.def_, vn)
             if not nested:
                 continue
             n += 1
-            key = "%s|arm:%s|hands-out-%s" % (f.def_, vn, "/".join(want))
             if var["path"] not in table:
                 rep.violation(rid, key, "no arm covers %s" % vn, f.loc)
                 continue
@@ -56,4 +63,4 @@ def rule_child_tables(facts, rep, rid):
             else:
                 rep.violation(rid, key, "%s::%s has nested %s but %s does not hand them out (%s): a link inside such a block is not found under the cursor - go-to-definition, "
                               "prepare-rename and rename do nothing there" % (enum_suffix, vn, nested[0], fb.last2(f.def_), "catch-all arm" if wild else "payload unused"), loc(f, arm["body"]))
-    rep.floor(rid, "variants with nested content in the three child tables", n, 14)
+    rep.floor(rid, "variants with nested content in the three child tables", n, 15)
